@@ -547,11 +547,14 @@ template<class T> struct Driver {
 };
 
 // ---- accuracy on long streams: seeded trials, exact ranks computed from the stream itself
-template<class T> static void trial(vt::Rng& g, long idx) {
+template<class T> static void trial(vt::Rng& g, long idx, int big_k = 0, long big_n = 0) {
   static const int KS[] = {10, 20, 50, 100, 200, 500};
   static const long NSZ[] = {1000, 5000, 20000, 100000, 300000};
   static const int Q4[] = {1, 10, 100, 500, 1000, 2500, 5000, 7500, 9000, 9500, 9900, 9990, 9999};
   int k = KS[g.below(6)]; long n = NSZ[g.below(5)]; int dist = (int)g.below(5); int parts = (int[]){1, 1, 2, 5, 20}[g.below(5)];
+  // large-k profile (the quantifier is "k >= 10", k is a uint16_t): the buffer of such a sketch holds 4 * (2k + 10) values, the
+  // queries below are the compress points
+  if (big_k) { k = big_k; n = big_n; parts = (int[]){1, 1, 2}[g.below(3)]; }
   std::vector<tdigest<T>> ts; for (int p = 0; p < parts; p++) ts.emplace_back((uint16_t)k);
   std::vector<double> vals; vals.reserve(n);
   bool blocks = g.chance(50);
@@ -588,7 +591,9 @@ template<class T> static void trial(vt::Rng& g, long idx) {
     if (std::isnan(v)) e2 = 2;
     q4.push_back(q); rerr.push_back(llround(e1 * 1e7)); qerr.push_back(llround(e2 * 1e7));
   }
+  std::string tstr(t.to_string().c_str());
   Ev("Trial").i("idx", idx).str("T", sizeof(T) == 8 ? "double" : "float").i("k", k).i("n", n).i("dist", dist).i("parts", parts)
+    .i("nc", field(tstr, "Centroids          ")).i("cap", field(tstr, "Centroids capacity"))
     .il("q4", q4).il("rerr7", rerr).il("qerr7", qerr).emit();
 }
 
@@ -620,6 +625,12 @@ int main(int argc, char** argv) {
     Ev("Begin").i("seg", 0).str("T", "stat").d("zero", 0.0).d("one", 1.0).emit();
     alarm(600);
     for (long t = 0; t < trials; t++) { if (g.chance(25)) trial<float>(g, t); else trial<double>(g, t); }
+    static const int BIGK[] = {1000, 8192, 32767, 32768, 32769, 40000, 65535};
+    const long bign = vt::argl(argc, argv, "--bign", 0);
+    for (int j = 0; j < 7; j++) {
+      long n = bign > 0 && g.chance(50) ? bign : g.range(20000, 60000);
+      if (g.chance(25)) trial<float>(g, trials + j, BIGK[j], n); else trial<double>(g, trials + j, BIGK[j], n);
+    }
     Ev("Verdict").emit();
   } else {
     for (long seg = 0; seg < segments; seg++) {
